@@ -70,33 +70,13 @@ def unpatched : Nat := 4294967295
 def maxLocals : Nat := 50
 def noLocal : Nat := 255
 
-structure CG where
-  code : Array Instr := #[]
-  pending : List Pending := []
+/-- the part of the generator state that is not code: local ids of filters / tests, and the flag
+"a construct outside the modelled fragment was met" -/
+structure Aux where
   filterIds : List String := []
   testIds : List String := []
-  /-- a construct outside the modelled fragment was met -/
   oof : Bool := false
   deriving Inhabited
-
-namespace CG
-
-def add (g : CG) (i : Instr) : CG := { g with code := g.code.push i }
-def next (g : CG) : Nat := g.code.size
-def markOof (g : CG) : CG := { g with oof := true }
-
-/-- overwrite the target of the jump-like instruction at `idx` -/
-def patch (g : CG) (idx : Nat) (target : Nat) : CG :=
-  match g.code[idx]? with
-  | some (.jump _) => { g with code := g.code.setIfInBounds idx (.jump target) }
-  | some (.jumpIfFalse _) => { g with code := g.code.setIfInBounds idx (.jumpIfFalse target) }
-  | some (.jumpIfFalseOrPop _) => { g with code := g.code.setIfInBounds idx (.jumpIfFalseOrPop target) }
-  | some (.jumpIfTrueOrPop _) => { g with code := g.code.setIfInBounds idx (.jumpIfTrueOrPop target) }
-  | some (.iterate _) => { g with code := g.code.setIfInBounds idx (.iterate target) }
-  | _ => g
-
-def patchAll (g : CG) (idxs : List Nat) (target : Nat) : CG :=
-  idxs.foldl (fun g i => g.patch i target) g
 
 /-- `get_local_id` -/
 def localId (ids : List String) (name : String) : Nat × List String :=
@@ -104,13 +84,45 @@ def localId (ids : List String) (name : String) : Nat × List String :=
   | some i => (i, ids)
   | none => if ids.length ≥ maxLocals then (noLocal, ids) else (ids.length, ids ++ [name])
 
+namespace Aux
+def markOof (a : Aux) : Aux := { a with oof := true }
+def filterId (a : Aux) (name : String) : Nat × Aux :=
+  ((localId a.filterIds name).1, { a with filterIds := (localId a.filterIds name).2 })
+def testId (a : Aux) (name : String) : Nat × Aux :=
+  ((localId a.testIds name).1, { a with testIds := (localId a.testIds name).2 })
+end Aux
+
+structure CG where
+  code : List Instr := []
+  pending : List Pending := []
+  aux : Aux := {}
+  deriving Inhabited
+
+namespace CG
+
+def add (g : CG) (i : Instr) : CG := { g with code := g.code ++ [i] }
+def next (g : CG) : Nat := g.code.length
+def markOof (g : CG) : CG := { g with aux := g.aux.markOof }
+def oof (g : CG) : Bool := g.aux.oof
+
+/-- overwrite the target of the jump-like instruction at `idx` -/
+def patch (g : CG) (idx : Nat) (target : Nat) : CG :=
+  match g.code[idx]? with
+  | some (.jump _) => { g with code := g.code.set idx (.jump target) }
+  | some (.jumpIfFalse _) => { g with code := g.code.set idx (.jumpIfFalse target) }
+  | some (.jumpIfFalseOrPop _) => { g with code := g.code.set idx (.jumpIfFalseOrPop target) }
+  | some (.jumpIfTrueOrPop _) => { g with code := g.code.set idx (.jumpIfTrueOrPop target) }
+  | some (.iterate _) => { g with code := g.code.set idx (.iterate target) }
+  | _ => g
+
+def patchAll (g : CG) (idxs : List Nat) (target : Nat) : CG :=
+  idxs.foldl (fun g i => g.patch i target) g
+
 def filterId (g : CG) (name : String) : Nat × CG :=
-  let r := localId g.filterIds name
-  (r.1, { g with filterIds := r.2 })
+  ((g.aux.filterId name).1, { g with aux := (g.aux.filterId name).2 })
 
 def testId (g : CG) (name : String) : Nat × CG :=
-  let r := localId g.testIds name
-  (r.1, { g with testIds := r.2 })
+  ((g.aux.testId name).1, { g with aux := (g.aux.testId name).2 })
 
 -- structured blocks ---------------------------------------------------------------------------
 
@@ -219,13 +231,8 @@ def constPairs : List (Expr × Expr) → Option (List (Val × Val))
   | (.const k, .const v) :: rest => (constPairs rest).map ((litVal k, litVal v) :: ·)
   | _ :: _ => none
 
-/-- in insertion order, a later duplicate key overwrites; string keys only -/
-def foldMap : List (Val × Val) → List (String × Val) → Fold
-  | [], acc => .val (.map acc)
-  | (.str k, v) :: rest, acc => foldMap rest (match assocGet k acc with
-      | some _ => mapInsert k v (acc.filter fun p => p.1 != k)
-      | none => mapInsert k v acc)
-  | _ :: _, _ => .oof
+/-- a map literal of constants -/
+def foldMap (ps : List (Val × Val)) : Fold := Fold.ofRes ((insertPairs ps []).map .map)
 
 /-- `eval_binop` -/
 def foldBinop (op : BinOp) (a b : Val) : Fold :=
@@ -249,7 +256,7 @@ mutual
       | some vs => .val (.list vs)
       | none => .no
     | .map kvs => match constPairs kvs with
-      | some ps => foldMap ps []
+      | some ps => foldMap ps
       | none => .no
     | .unop .not e => match asConst e with
       | .val v => .val (.bool (!truthy v))
@@ -439,7 +446,7 @@ mutual
 end
 
 /-- compile a template; `none` if it leaves the modelled fragment -/
-def compileTemplate (prog : List Stmt) : Option (Array Instr) :=
+def compileTemplate (prog : List Stmt) : Option (List Instr) :=
   let g := cBlock prog {}
   if g.oof || !g.pending.isEmpty then none else some g.code
 
